@@ -609,7 +609,7 @@ static void run_range(long a, long b, int timeout) {
         if (pid == 0) {
             signal(SIGALRM, vf_alarm); vf_install_fault_handlers();
             if (errfd >= 0) dup2(errfd, 2);
-            for (long i = next; i < b; i++) { if (i % SW.nslice != SW.islice) continue; vf_sh->cur = i; alarm(timeout); unit_fn(i); G->resume_cfg = 0; }
+            for (long i = next; i < b; i++) { if (i % SW.nslice != SW.islice) continue; vf_sh->cur = i; vf_case_timer(timeout); unit_fn(i); G->resume_cfg = 0; }
             vf_sh->done = 1; fflush(NULL); _exit(0);
         }
         int st = 0; waitpid(pid, &st, 0); vf_last_child = pid;
@@ -657,7 +657,7 @@ static int replay_one(const char *s) {
     SW.fam = c->fam; G->cur = *c;
     fflush(NULL);
     pid_t pid = fork();
-    if (pid == 0) { signal(SIGALRM, vf_alarm); vf_install_fault_handlers(); if (errfd >= 0) dup2(errfd, 2); alarm(60); one_fn(); fflush(NULL); _exit(0); }
+    if (pid == 0) { signal(SIGALRM, vf_alarm); vf_install_fault_handlers(); if (errfd >= 0) dup2(errfd, 2); vf_case_timer(60); one_fn(); fflush(NULL); _exit(0); }
     int st = 0; waitpid(pid, &st, 0); vf_last_child = pid;
     if (!(WIFEXITED(st) && WEXITSTATUS(st) == 0)) {
         int kind, code;
